@@ -14,6 +14,14 @@ def _kv(tk):
     return d
 
 def check(impl, scn):
+    try:
+        return _check(impl, scn)
+    except Exception as e:                      # a monitor never raises; its own failure is reported as such
+        import traceback
+        return [("monitor-error", repr(e) + " " + traceback.format_exc()[-300:].replace("\n", " | "))]
+
+
+def _check(impl, scn):
     fails = []
     wl = {}; rl = {}       # handler -> dict
     closed = set()
